@@ -220,6 +220,62 @@ def r04_4(prog: Program, rep):
            "add_object is reachable before the whole pack was inflated", mc.node.lineno)
 
 
+def _remaining_bound(fn_node) -> bool:
+    """The max_length handed to decompress() inside the read loop subtracts the running output counter (the variable that
+    grows by len(<decompressed>)), so that the TOTAL inflated is bounded, not each call on its own."""
+    counters = {x.target.id for x in ast.walk(fn_node) if isinstance(x, ast.AugAssign) and isinstance(x.op, ast.Add) and isinstance(x.target, ast.Name)
+                and isinstance(x.value, ast.Call) and callee_name(x.value) == "len"}
+    defs = {}
+    for x in ast.walk(fn_node):
+        if isinstance(x, ast.Assign) and isinstance(x.targets[0], ast.Name):
+            defs.setdefault(x.targets[0].id, []).append(x.value)
+    for c in ast.walk(fn_node):
+        if isinstance(c, ast.Call) and isinstance(c.func, ast.Attribute) and c.func.attr == "decompress" and len(c.args) >= 2:
+            b = c.args[1]
+            exprs = [b] + (defs.get(b.id, []) if isinstance(b, ast.Name) else [])
+            ok = any(isinstance(y, ast.BinOp) and isinstance(y.op, ast.Sub) and any(isinstance(z, ast.Name) and z.id in counters for z in ast.walk(y.right))
+                     for e in exprs for y in ast.walk(e))
+            if not ok:
+                return False
+    return bool(counters)
+
+
+def r04_9(prog: Program, rep):
+    """receive.maxInputSize: every read callable that add_thin_pack hands to the pack reader after _bound_read_callables is a
+    counting wrapper - no raw callback parameter is returned, and the wrapped pair is what reaches the reader."""
+    m = prog.module(OS_PY)
+    f = m.funcs.get("_bound_read_callables")
+    if f is None:
+        raise AnalysisError("_bound_read_callables not found")
+    params = {a.arg for a in f.node.args.args}
+    raw = []
+    n_ret = 0
+    for r in ast.walk(f.node):
+        if isinstance(r, ast.Return) and m.enclosing_func(r) is f and r.value is not None:
+            n_ret += 1
+            elts = r.value.elts if isinstance(r.value, ast.Tuple) else [r.value]
+            for e in elts:
+                if isinstance(e, ast.Name) and e.id in params:
+                    raw.append(e)
+    rep.ob("R04.9", OS_PY, f.qual, "no raw read callback is returned: every non-None element is a counting wrapper", n_ret >= 1 and not raw,
+           f"`{raw[0].id}` is returned as it came in: bytes read through it are never counted against max_input_size, so a pack larger "
+           f"than receive.maxInputSize is accepted and installed" if raw else "", raw[0].lineno if raw else f.node.lineno)
+    # every wrapper (a nested def that calls one of the parameters) also calls the counter
+    chk = [q for q, fn in m.funcs.items() if q.startswith(f.qual + ".<locals>.") and any(isinstance(x, ast.Raise) for x in ast.walk(fn.node))]
+    wr = [fn for q, fn in m.funcs.items() if q.startswith(f.qual + ".<locals>.") and any(
+        isinstance(c, ast.Call) and isinstance(c.func, ast.Name) and c.func.id in params | {"read"} for c in ast.walk(fn.node))]
+    cnames = {q.split(".")[-1] for q in chk}
+    bad = [fn for fn in wr if not any(isinstance(c, ast.Call) and isinstance(c.func, ast.Name) and c.func.id in cnames for c in ast.walk(fn.node))]
+    rep.ob("R04.9", OS_PY, f.qual, "every wrapper counts what it read before returning it", bool(chk) and bool(wr) and not bad,
+           f"{bad[0].qual} reads without counting" if bad else "", f.node.lineno)
+    at = m.funcs.get("DiskObjectStore.add_thin_pack")
+    if at is None:
+        raise AnalysisError("DiskObjectStore.add_thin_pack not found")
+    src = norm(at.node, 100000)
+    rep.ob("R04.9", OS_PY, at.qual, "the wrapped pair replaces the callbacks before the pack is read", "read_all, read_some = _bound_read_callables(" in src
+           and src.index("_bound_read_callables(") < src.index("PackStreamCopier(") if "PackStreamCopier(" in src else False, "", at.node.lineno)
+
+
 def r04_5(prog: Program, rep):
     n = 0
     for m in prog.modules.values():
@@ -253,6 +309,7 @@ def r04_5(prog: Program, rep):
             "final length compared": any(isinstance(x, ast.If) and "!=" in norm(x.test) and "decomp_len" in norm(x.test)
                                          and any(isinstance(s, ast.Raise) for s in x.body) for x in ast.walk(f.node)),
             "EOF rejected": "EOF before end of zlib stream" in src,
+            "bound is what REMAINS (shrinks by what was produced)": _remaining_bound(f.node),
             "negative size rejected": any(isinstance(x, ast.If) and any(
                 isinstance(cmp_, ast.Compare) and isinstance(cmp_.ops[0], (ast.Lt, ast.LtE)) and "decomp_len" in norm(cmp_)
                 for cmp_ in ast.walk(x.test)) and any(isinstance(s, ast.Raise) for s in x.body) for x in ast.walk(f.node)),
@@ -383,6 +440,7 @@ def run(prog: Program, rep, tier="quick"):
     rep.rule("R04.5", "every decompress call passes an output bound; zlib chunk readers agree; ofs base offset zero-checked")
     rep.rule("R04.6", "object names in indexes come from hashing content")
     rep.rule("R04.7", "delta-chain walk is cycle guarded")
+    rep.rule("R04.9", "input-size cap: every read callable handed on by _bound_read_callables counts what it reads")
     rep.rule("R04.8", "stored checksums are verified on read")
     rep.not_decided += ["that every corrupt byte is noticed (zlib/SHA do that at run time)", "promptness",
                         "the family of exception types that can escape", "temp files left by a failed add_thin_pack (not visible objects)"]
@@ -394,6 +452,18 @@ def run(prog: Program, rep, tier="quick"):
     r04_6(prog, rep)
     r04_7(prog, rep)
     r04_8(prog, rep)
+    # a damaged packed-refs file leaves no usable cache behind (same engine as R14.4; only that obligation is kept here)
+    from rules import c14
+    before = len(rep.obs)
+    c14.r14_4(prog, rep)
+    kept = [o for o in rep.obs[before:] if "parsed to the end" in o.key]
+    del rep.obs[before:]
+    for o in kept:
+        o.rule = "R04.8"
+        rep.obs.append(o)
+    if not kept:
+        raise AnalysisError("R04.8: the packed-refs cache obligation was not produced")
+    r04_9(prog, rep)
     from sa.common import alias_guard
     alias_guard(prog, rep, "R04.2", {"add_pack"})
     rep.floor("R04.1", 4)
